@@ -1,7 +1,7 @@
 (* C13 - type annotations are well-formed and mean the same in every spelling.
    Statements only; proofs in proofs/TypeHintProofs.v.  The tree model (model/TypeHint.v) is tied to
    DataType.type_hint by differential execution on real DataType objects. *)
-From DMCG Require Import TypeHint TypeHintProofs TypeDen.
+From DMCG Require Import TypeHint TypeHintProofs TypeDen HintImports SpellingProofs.
 From Coq Require Import List.
 Import ListNotations.
 Open Scope N_scope.
@@ -63,6 +63,44 @@ Proof. vm_compute. repeat split. Qed.
 Theorem C13_same_meaning_bounded :
   forallb same_in_all_spellings family = true /\ N.of_nat (List.length family) = 12630.
 Proof. vm_compute. split; reflexivity. Qed.
+(* "making a type optional keeps every non-None alternative", for every hint and BOTH union styles (the statements
+   above are about the operator spelling only): alts h is the list of non-None alternatives of h, unions and
+   Optional flattened, in order *)
+Theorem C13_optional_keeps_alternatives :
+  forall o h, alts (make_optional o h) = alts h.
+Proof. exact make_optional_keeps_alternatives. Qed.
+
+(* ... and at the level of the IR tree, for every tree and every spelling: the optional flag of a node adds None and
+   nothing else to the rendered annotation *)
+Theorem C13_optional_flag_keeps_alternatives :
+  forall o typ children lits ref c,
+    alts (type_hint o (DT typ children lits ref true c)) = alts (type_hint o (DT typ children lits ref false c)).
+Proof. exact optional_flag_keeps_alternatives. Qed.
+
+Example C13_alts_example :
+  alts (HOpt (HUnion [HAtom sA; HNone; HUnion [HSub sB [HAtom sA]; HOpt (HAtom sR)]])) = [HAtom sA; HSub sB [HAtom sA]; HAtom sR].
+Proof. reflexivity. Qed.
+
+(* "does not depend on the spelling options", unbounded, for the container names: for EVERY IR tree whose own
+   names (types, references, dict keys) are not container names, the annotation means the same with typing names,
+   builtin names and abstract collection names - it equals the meaning under the default container spelling with the
+   same union style.  (proofs/SpellingProofs.v: th o t is th o0 t up to a renaming of the three container heads
+   that is injective on the hints that can occur, so every comparison the rendering makes has the same outcome.)
+   What stays bounded is the other dimension, Optional/Union versus the | operator (C13_same_meaning_bounded). *)
+Theorem C13_container_spelling_same_meaning :
+  forall o t, clean_dt t = true -> meaning o t = meaning {| uo := uo o; sc := false; gc := false |} t.
+Proof. exact meaning_container_spelling. Qed.
+
+Theorem C13_same_union_style_same_meaning :
+  forall o1 o2 t, clean_dt t = true -> uo o1 = uo o2 -> meaning o1 t = meaning o2 t.
+Proof. exact meaning_same_union_style. Qed.
+
+(* non-vacuity: the trees of the bounded family are clean, and a nested tree with a custom dict key *)
+Example C13_clean_examples :
+  forallb clean_dt family = true
+  /\ clean_dt (DT None [DT (Some sA) [] [] None true (CDict (Some sB)); DT None [] [] (Some sR) false CSet] [] None true CList) = true.
+Proof. vm_compute. split; reflexivity. Qed.
+
 (* the normal form does distinguish meanings: Optional[int] vs int, List[int] vs int *)
 Example C13_meaning_distinguishes :
   hint_eqb (meaning {| uo := true; sc := false; gc := false |} (DT (Some sA) [] [] None true CNone))
@@ -78,3 +116,7 @@ Print Assumptions C13_none_exactly_once_op.
 Print Assumptions C13_double_optional_refuted.
 Print Assumptions C13_none_thrice_refuted.
 Print Assumptions C13_same_meaning_bounded.
+Print Assumptions C13_optional_keeps_alternatives.
+Print Assumptions C13_optional_flag_keeps_alternatives.
+Print Assumptions C13_container_spelling_same_meaning.
+Print Assumptions C13_same_union_style_same_meaning.
